@@ -50,29 +50,28 @@ Definition item_of127 (w : list N) : option item :=
   let wr := negb (N.land (nthN w 0) 0x80 =? 0)%N in
   if (addr =? 0)%N then None else if wr then item127 addr else None.
 
+Lemma spi126_ready x m w r : ready m -> spi126 x m w r = spi126_cmd x m w r.
+Proof.
+  intros [R1 R2]. unfold spi126.
+  assert (D : (cmode_eqb (cm m) CDuty && negb (awake m))%bool = false).
+  { destruct (cm m) eqn:E; try reflexivity. cbn. rewrite (R2 eq_refl). reflexivity. }
+  rewrite D. cbn [andb]. destruct (cm m); try reflexivity. exfalso; apply R1; reflexivity.
+Qed.
+(* status reads are answered whenever the chip is not asleep (also between the phases of a duty-cycled reception) *)
+Lemma spi126_readonly x m w r : cm m <> CSleep -> readonly126 (nthN w 0) = true -> (nthN w 0 =? 0xC0)%N = false -> spi126 x m w r = spi126_cmd x m w r.
+Proof.
+  intros R1 RO NC. unfold spi126. rewrite RO, NC. cbn [negb andb]. rewrite !andb_false_r. destruct (cm m); try reflexivity. exfalso; apply R1; reflexivity.
+Qed.
+
 Lemma spi126_plain x m w r : ready m -> plain126 w = true ->
   spi126 x m w r = match item_of126 w with Some i => add_item m i | None => m end.
 Proof.
-  intros [R1 R2] P. unfold plain126 in P. cbn [existsb] in P. rewrite !negb_orb in P.
+  intros R P. rewrite spi126_ready by exact R. unfold plain126 in P. cbn [existsb] in P. rewrite !negb_orb in P.
   repeat match type of P with (_ && _)%bool = true => apply andb_true_iff in P; destruct P as [?P P] end.
   repeat match goal with H : negb (_ =? _)%N = true |- _ => apply negb_true_iff in H end.
-  assert (D : (cmode_eqb (cm m) CDuty && negb (awake m))%bool = false).
-  { destruct (cm m) eqn:E; try reflexivity. cbn. rewrite (R2 eq_refl). reflexivity. }
-  unfold spi126, item_of126.
-  assert (G : forall (X : mon), match cm m with CSleep => X | _ =>
-      if (cmode_eqb (cm m) CDuty && negb (awake m) && (nthN w 0 =? 192)%N)%bool then with_awake m true
-      else if (cmode_eqb (cm m) CDuty && negb (awake m) && negb (readonly126 (nthN w 0)))%bool then flag_asleep m
-      else match (if ((nthN w 0 =? 13)%N && Nat.leb 5 (length w) && (nthN w 1 =? 7)%N && (nthN w 2 =? 64)%N)%bool then Some ISync else item126 (nthN w 0))
-           with Some i => add_item m i | None => m end end =
-      match (if ((nthN w 0 =? 13)%N && Nat.leb 5 (length w) && (nthN w 1 =? 7)%N && (nthN w 2 =? 64)%N)%bool then Some ISync else item126 (nthN w 0))
-      with Some i => add_item m i | None => m end).
-  { intros X. rewrite D. cbn [andb]. destruct (cm m); try reflexivity. exfalso; apply R1; reflexivity. }
-  rewrite <- (G (if (nthN w 0 =? 192)%N then with_mode m CStby else flag_asleep m)). clear G.
-  destruct (cm m); try reflexivity;
-    rewrite ?D; cbn [andb];
-    repeat match goal with H : (nthN w 0 =? _)%N = false |- _ => rewrite H; clear H end; cbn [orb andb];
-    destruct ((nthN w 0 =? 13)%N && Nat.leb 5 (length w) && (nthN w 1 =? 7)%N && (nthN w 2 =? 64)%N)%bool; try reflexivity;
-    destruct (item126 (nthN w 0)); reflexivity.
+  unfold spi126_cmd, item_of126.
+  repeat match goal with H : (nthN w 0 =? _)%N = false |- _ => rewrite H; clear H end; cbn [orb andb].
+  destruct ((nthN w 0 =? 13)%N && Nat.leb 5 (length w) && (nthN w 1 =? 7)%N && (nthN w 2 =? 64)%N)%bool; reflexivity.
 Qed.
 
 Lemma spi127_plain x m w r : ready m -> plain127 w = true ->
